@@ -35,19 +35,6 @@ pub(crate) fn pad_iso_year(year: i32) -> String {
     format!("{year_sign}{year_string}",)
 }
 
-/// `EpochTimeToDayNumber`
-///
-/// This equation is the equivalent to `ECMAScript`'s `Date(t)`
-#[cfg(feature = "tzdb")]
-pub(crate) fn epoch_time_to_day_number(t: i64) -> i32 {
-    t.div_euclid(MS_PER_DAY as i64) as i32
-}
-
-#[cfg(feature = "tzdb")]
-pub(crate) fn epoch_ms_to_ms_in_day(t: i64) -> u32 {
-    (t.rem_euclid(i64::from(MS_PER_DAY))) as u32
-}
-
 /// Mathematically determine the days in a year.
 pub(crate) fn mathematical_days_in_year(y: i32) -> i32 {
     if y % 4 != 0 {
@@ -111,30 +98,6 @@ pub(crate) fn month_to_day(m: u8, leap_day: u16) -> u16 {
         11 => 334 + leap_day,
         _ => unreachable!(),
     }
-}
-
-#[cfg(feature = "tzdb")]
-pub(crate) fn epoch_ms_to_month_in_year(t: i64) -> u8 {
-    let epoch_days = epoch_ms_to_epoch_days(t);
-    let (rata_die, _) = neri_schneider::rata_die_for_epoch_days(epoch_days);
-    neri_schneider::month(rata_die)
-}
-
-#[cfg(feature = "tzdb")]
-pub(crate) fn epoch_time_to_day_in_year(t: i64) -> i32 {
-    epoch_time_to_day_number(t) - (epoch_days_for_year(epoch_time_to_epoch_year(t)))
-}
-
-#[cfg(feature = "tzdb")]
-pub(crate) fn epoch_seconds_to_day_of_week(t: i64) -> u8 {
-    ((t / 86_400) + 4).rem_euclid(7) as u8
-}
-
-#[cfg(feature = "tzdb")]
-pub(crate) fn epoch_seconds_to_day_of_month(t: i64) -> u16 {
-    let leap_day = mathematical_in_leap_year(t);
-    epoch_time_to_day_in_year(t * 1_000) as u16
-        - month_to_day(epoch_ms_to_month_in_year(t * 1_000) - 1, leap_day as u16)
 }
 
 // Trait implementations
